@@ -10,6 +10,7 @@
      7. the moves offered depend on the rule key only *)
 From Coq Require Import NArith ZArith List Bool Lia ZifyBool ZifyN ZifyNat Permutation.
 From WV Require Import Text Wf BitsProofs.
+From WV Require C09.
 Import ListNotations.
 Open Scope N_scope.
 Ltac Zify.zify_post_hook ::= Z.div_mod_to_equations.
@@ -242,4 +243,733 @@ Theorem uncapturable_ep_irrelevant : forall h s ep',
   hash h (mkState (st_board s) (st_turn s) (st_wk s) (st_wq s) (st_bk s) (st_bq s) ep' (st_half s) (st_full s)) = hash h s.
 Proof.
   intros h s ep' H1 H2. apply same_key_same_hash. unfold rulekey. rewrite H1, H2. reflexivity.
+Qed.
+
+(* ------------------------------------------------------------------ *)
+(* 4. feature form                                                     *)
+(* ------------------------------------------------------------------ *)
+
+Inductive feature :=
+| FPiece (sq : N) (c : color) (p : piece)
+| FTurn (c : color)
+| FCastle (c : color) (kingside : bool)
+| FEp (file : N).
+
+Definition key_of (h : hasher) (f : feature) : N :=
+  match f with
+  | FPiece sq c p => nthN (k_piece h) (sq * 16 + piece_index c p) 0
+  | FTurn c => nthN (k_turn h) (if is_white c then 0 else 1) 0
+  | FCastle c ks => nthN (k_castle h) ((if is_white c then 0 else 2) + (if ks then 0 else 1)) 0
+  | FEp f => nthN (k_ep h) f 0
+  end.
+
+Definition slot_features (b : board) (c : color) (p : piece) : list feature :=
+  map (fun sq => FPiece sq c p) (iter_ones (pocc b c p)).
+Definition color_features (b : board) (c : color) : list feature :=
+  flat_map (slot_features b c) (PNone :: all_pieces).
+Definition piece_features (b : board) : list feature :=
+  flat_map (color_features b) all_colors.
+
+Definition castle_pairs : list (color * bool) := [(White, true); (White, false); (Black, true); (Black, false)].
+Definition castle_features (s : state) : list feature :=
+  flat_map (fun ck => if castle_right s (fst ck) (snd ck) then [FCastle (fst ck) (snd ck)] else []) castle_pairs.
+Definition ep_features (s : state) : list feature :=
+  match ep_capturable s with Some t => [FEp (file_of t)] | None => [] end.
+
+Definition features (s : state) : list feature :=
+  piece_features (st_board s) ++ FTurn (st_turn s) :: castle_features s ++ ep_features s.
+
+Lemma hash_slot_fold : forall h c p l a,
+  fold_left (fun acc sq => N.lxor acc (nthN (k_piece h) (sq * 16 + piece_index c p) 0)) l a
+  = N.lxor a (xfold (map (key_of h) (map (fun sq => FPiece sq c p) l))).
+Proof.
+  intros h c p l a. rewrite map_map. cbn [key_of].
+  apply (fold_left_xor N (fun sq => nthN (k_piece h) (sq * 16 + piece_index c p) 0)).
+Qed.
+
+Lemma hash_color_fold : forall h b c ps a,
+  fold_left (fun acc p =>
+      fold_left (fun acc sq => N.lxor acc (nthN (k_piece h) (sq * 16 + piece_index c p) 0))
+                (iter_ones (pocc b c p)) acc) ps a
+  = N.lxor a (xfold (map (key_of h) (flat_map (slot_features b c) ps))).
+Proof.
+  intros h b c. induction ps as [|p ps IH]; intros a; cbn [fold_left flat_map].
+  - cbn [map xfold fold_right]. rewrite N.lxor_0_r. reflexivity.
+  - rewrite IH, hash_slot_fold, map_app, xfold_app, N.lxor_assoc. reflexivity.
+Qed.
+
+Lemma hash_pieces_fold : forall h b ps cs a,
+  fold_left (fun acc c =>
+    fold_left (fun acc p =>
+      fold_left (fun acc sq => N.lxor acc (nthN (k_piece h) (sq * 16 + piece_index c p) 0))
+                (iter_ones (pocc b c p)) acc)
+      ps acc) cs a
+  = N.lxor a (xfold (map (key_of h) (flat_map (fun c => flat_map (slot_features b c) ps) cs))).
+Proof.
+  intros h b ps. induction cs as [|c cs IH]; intros a; cbn [fold_left flat_map].
+  - cbn [map xfold fold_right]. rewrite N.lxor_0_r. reflexivity.
+  - rewrite IH, hash_color_fold, map_app, xfold_app, N.lxor_assoc. reflexivity.
+Qed.
+
+Lemma hash_pieces_features : forall h b, hash_pieces h b = xfold (map (key_of h) (piece_features b)).
+Proof.
+  intros h b. unfold hash_pieces, piece_features, color_features. rewrite hash_pieces_fold, N.lxor_0_l. reflexivity.
+Qed.
+
+Lemma hash_castle_fold : forall h s l a,
+  fold_left (fun acc ck =>
+     if castle_right s (fst ck) (snd ck)
+     then N.lxor acc (nthN (k_castle h) ((if is_white (fst ck) then 0 else 2) + (if snd ck then 0 else 1)) 0)
+     else acc) l a
+  = N.lxor a (xfold (map (key_of h)
+       (flat_map (fun ck => if castle_right s (fst ck) (snd ck) then [FCastle (fst ck) (snd ck)] else []) l))).
+Proof.
+  intros h s. induction l as [|ck l IH]; intros a; cbn [fold_left flat_map].
+  - cbn [map xfold fold_right]. rewrite N.lxor_0_r. reflexivity.
+  - rewrite IH, map_app, xfold_app. destruct (castle_right s (fst ck) (snd ck)).
+    + cbn [map key_of]. rewrite xfold_cons. cbn [xfold fold_right]. rewrite N.lxor_0_r, N.lxor_assoc. reflexivity.
+    + cbn [map xfold fold_right]. rewrite N.lxor_0_l. reflexivity.
+Qed.
+
+Theorem feature_form : forall h s, hash h s = fold_right N.lxor 0 (map (key_of h) (features s)).
+Proof.
+  intros h s. change (hash h s = xfold (map (key_of h) (features s))).
+  unfold features, hash. cbv zeta.
+  rewrite map_app, xfold_app. cbn [map]. rewrite xfold_cons, map_app, xfold_app.
+  change [(White, true); (White, false); (Black, true); (Black, false)] with castle_pairs.
+  rewrite hash_castle_fold. fold (castle_features s).
+  rewrite hash_pieces_features. unfold ep_features.
+  cbn [key_of].
+  destruct (ep_capturable s) as [t|].
+  - cbn [map key_of]. rewrite xfold_cons. cbn [xfold fold_right].
+    rewrite N.lxor_0_r, !N.lxor_assoc. reflexivity.
+  - cbn [map xfold fold_right]. rewrite N.lxor_0_r, !N.lxor_assoc. reflexivity.
+Qed.
+
+(* --- membership --- *)
+
+Lemma In_slot_features : forall b c p f,
+  In f (slot_features b c p) <-> exists sq, f = FPiece sq c p /\ N.testbit (pocc b c p) sq = true.
+Proof.
+  intros b c p f. unfold slot_features. rewrite in_map_iff. split.
+  - intros [sq [E Hi]]. exists sq. split; [symmetry; exact E | apply iter_ones_spec; exact Hi].
+  - intros [sq [E Hi]]. exists sq. split; [symmetry; exact E | apply iter_ones_spec; exact Hi].
+Qed.
+
+Lemma In_piece_features : forall b f,
+  In f (piece_features b) <-> exists sq c p, f = FPiece sq c p /\ N.testbit (pocc b c p) sq = true.
+Proof.
+  intros b f. unfold piece_features, color_features. rewrite in_flat_map. split.
+  - intros [c [_ Hi]]. apply in_flat_map in Hi. destruct Hi as [p [_ Hi]].
+    apply In_slot_features in Hi. destruct Hi as [sq [E Ht]]. exists sq, c, p. split; assumption.
+  - intros [sq [c [p [E Ht]]]]. exists c. split.
+    + destruct c; cbn; tauto.
+    + apply in_flat_map. exists p. split.
+      * destruct p; cbn; tauto.
+      * apply In_slot_features. exists sq. split; assumption.
+Qed.
+
+Lemma In_castle_features : forall s f,
+  In f (castle_features s) <-> exists c ks, f = FCastle c ks /\ castle_right s c ks = true.
+Proof.
+  intros s f. unfold castle_features. rewrite in_flat_map. split.
+  - intros [[c ks] [_ Hi]]. cbn [fst snd] in Hi. destruct (castle_right s c ks) eqn:E; [|destruct Hi].
+    destruct Hi as [Hi | []]. exists c, ks. split; [symmetry; exact Hi | exact E].
+  - intros [c [ks [E Hr]]]. exists (c, ks). split.
+    + destruct c, ks; cbn; tauto.
+    + cbn [fst snd]. rewrite Hr. left. symmetry. exact E.
+Qed.
+
+Lemma In_ep_features : forall s f,
+  In f (ep_features s) <-> exists t, f = FEp (file_of t) /\ ep_capturable s = Some t.
+Proof.
+  intros s f. unfold ep_features. destruct (ep_capturable s) as [t|]; split.
+  - intros [Hi | []]. exists t. split; [symmetry; exact Hi | reflexivity].
+  - intros [t' [E Ht]]. injection Ht as Ht. subst t'. left. symmetry. exact E.
+  - intros [].
+  - intros [t' [_ Ht]]. discriminate Ht.
+Qed.
+
+Lemma In_features_piece : forall s sq c p,
+  In (FPiece sq c p) (features s) <-> N.testbit (pocc (st_board s) c p) sq = true.
+Proof.
+  intros s sq c p. unfold features. rewrite in_app_iff. cbn [In]. rewrite in_app_iff.
+  rewrite In_piece_features, In_castle_features, In_ep_features. split.
+  - intros [[sq' [c' [p' [E Ht]]]] | [E | [[c' [ks [E _]]] | [t [E _]]]]]; try discriminate E.
+    injection E as E1 E2 E3. subst sq' c' p'. exact Ht.
+  - intros Ht. left. exists sq, c, p. split; [reflexivity | exact Ht].
+Qed.
+
+Lemma In_features_turn : forall s c, In (FTurn c) (features s) <-> c = st_turn s.
+Proof.
+  intros s c. unfold features. rewrite in_app_iff. cbn [In]. rewrite in_app_iff.
+  rewrite In_piece_features, In_castle_features, In_ep_features. split.
+  - intros [[sq' [c' [p' [E Ht]]]] | [E | [[c' [ks [E _]]] | [t [E _]]]]]; try discriminate E.
+    injection E as E. symmetry. exact E.
+  - intros E. right. left. rewrite E. reflexivity.
+Qed.
+
+Lemma In_features_castle : forall s c ks, In (FCastle c ks) (features s) <-> castle_right s c ks = true.
+Proof.
+  intros s c ks. unfold features. rewrite in_app_iff. cbn [In]. rewrite in_app_iff.
+  rewrite In_piece_features, In_castle_features, In_ep_features. split.
+  - intros [[sq' [c' [p' [E Ht]]]] | [E | [[c' [ks' [E Hr]]] | [t [E _]]]]]; try discriminate E.
+    injection E as E1 E2. subst c' ks'. exact Hr.
+  - intros Hr. right. right. left. exists c, ks. split; [reflexivity | exact Hr].
+Qed.
+
+Lemma In_features_ep : forall s f, In (FEp f) (features s) <-> exists t, f = file_of t /\ ep_capturable s = Some t.
+Proof.
+  intros s f. unfold features. rewrite in_app_iff. cbn [In]. rewrite in_app_iff.
+  rewrite In_piece_features, In_castle_features, In_ep_features. split.
+  - intros [[sq' [c' [p' [E Ht]]]] | [E | [[c' [ks' [E Hr]]] | [t [E Ht]]]]]; try discriminate E.
+    injection E as E. exists t. split; assumption.
+  - intros [t [E Ht]]. right. right. right. exists t. split; [rewrite E; reflexivity | exact Ht].
+Qed.
+
+(* ------------------------------------------------------------------ *)
+(* 5. no duplicates; the feature set is equivalent to the rule key     *)
+(* ------------------------------------------------------------------ *)
+
+Lemma slot_features_NoDup : forall b c p, NoDup (slot_features b c p).
+Proof.
+  intros b c p. unfold slot_features. apply NoDup_map_inj; [|apply iter_ones_NoDup].
+  intros x y E. injection E as E. exact E.
+Qed.
+
+Lemma all_colors_NoDup : NoDup all_colors.
+Proof. unfold all_colors. repeat constructor; cbn [In]; intuition discriminate. Qed.
+
+Lemma all_kinds_NoDup : NoDup (PNone :: all_pieces).
+Proof. unfold all_pieces. repeat constructor; cbn [In]; intuition discriminate. Qed.
+
+Lemma color_features_NoDup : forall b c, NoDup (color_features b c).
+Proof.
+  intros b c. unfold color_features. apply NoDup_flat_map_intro.
+  - exact all_kinds_NoDup.
+  - intros p _. apply slot_features_NoDup.
+  - intros p1 p2 z _ _ H1 H2. apply In_slot_features in H1. apply In_slot_features in H2.
+    destruct H1 as [sq1 [E1 _]]. destruct H2 as [sq2 [E2 _]]. rewrite E1 in E2. injection E2 as _ E2. exact E2.
+Qed.
+
+Lemma In_color_features_color : forall b c z, In z (color_features b c) -> exists sq p, z = FPiece sq c p.
+Proof.
+  intros b c z H. unfold color_features in H. apply in_flat_map in H. destruct H as [p [_ H]].
+  apply In_slot_features in H. destruct H as [sq [E _]]. exists sq, p. exact E.
+Qed.
+
+Lemma piece_features_NoDup : forall b, NoDup (piece_features b).
+Proof.
+  intros b. unfold piece_features. apply NoDup_flat_map_intro.
+  - exact all_colors_NoDup.
+  - intros c _. apply color_features_NoDup.
+  - intros c1 c2 z _ _ H1 H2. apply In_color_features_color in H1. apply In_color_features_color in H2.
+    destruct H1 as [sq1 [p1 E1]]. destruct H2 as [sq2 [p2 E2]]. rewrite E1 in E2. injection E2 as _ E2 _. exact E2.
+Qed.
+
+Lemma castle_features_NoDup : forall s, NoDup (castle_features s).
+Proof.
+  intros s. unfold castle_features, castle_pairs. cbn [flat_map fst snd].
+  destruct (castle_right s White true), (castle_right s White false),
+           (castle_right s Black true), (castle_right s Black false); cbn [app];
+    repeat constructor; cbn [In]; intuition discriminate.
+Qed.
+
+Lemma ep_features_NoDup : forall s, NoDup (ep_features s).
+Proof.
+  intros s. unfold ep_features. destruct (ep_capturable s); repeat constructor. intros [].
+Qed.
+
+Theorem features_NoDup : forall s, NoDup (features s).
+Proof.
+  intros s. unfold features. apply NoDup_app_intro.
+  - apply piece_features_NoDup.
+  - constructor.
+    + rewrite in_app_iff, In_castle_features, In_ep_features.
+      intros [[c [ks [E _]]] | [t [E _]]]; discriminate E.
+    + apply NoDup_app_intro.
+      * apply castle_features_NoDup.
+      * apply ep_features_NoDup.
+      * intros x H1 H2. apply In_castle_features in H1. apply In_ep_features in H2.
+        destruct H1 as [c [ks [E1 _]]]. destruct H2 as [t [E2 _]]. rewrite E1 in E2. discriminate E2.
+  - intros x H1 H2. apply In_piece_features in H1. destruct H1 as [sq [c [p [E1 _]]]].
+    destruct H2 as [H2 | H2].
+    + rewrite E1 in H2. discriminate H2.
+    + rewrite in_app_iff, In_castle_features, In_ep_features in H2.
+      destruct H2 as [[c' [ks [E _]]] | [t [E _]]]; rewrite E1 in E; discriminate E.
+Qed.
+
+(* an en-passant target, when present, lies on the rank behind a pawn that has just made a double step:
+   rank 6 (index 5) when White is to move, rank 3 (index 2) when Black is to move.  True of every state
+   produced by apply_move from a legal position; NOT implied by WfState. *)
+Definition ep_rank_ok (s : state) : bool :=
+  match st_ep s with
+  | Some t => rank_of t =? (if is_white (st_turn s) then 5 else 2)
+  | None => true
+  end.
+
+Lemma ep_capturable_Some : forall s t, ep_capturable s = Some t -> st_ep s = Some t.
+Proof.
+  intros s t H. unfold ep_capturable in H. destruct (st_ep s) as [u|]; [|discriminate H].
+  destruct (any _); [|discriminate H]. exact H.
+Qed.
+
+Lemma ep_capturable_rank : forall s t, ep_rank_ok s = true -> ep_capturable s = Some t ->
+  rank_of t = (if is_white (st_turn s) then 5 else 2).
+Proof.
+  intros s t Hok H. apply ep_capturable_Some in H. unfold ep_rank_ok in Hok. rewrite H in Hok.
+  apply N.eqb_eq. exact Hok.
+Qed.
+
+Lemma square_of_rank_file : forall t u, rank_of t = rank_of u -> file_of t = file_of u -> t = u.
+Proof. intros t u. unfold rank_of, file_of. lia. Qed.
+
+Lemma board_ext : forall b1 b2,
+  (forall c p sq, N.testbit (pocc b1 c p) sq = N.testbit (pocc b2 c p) sq) -> b1 = b2.
+Proof.
+  intros [a1 a2 a3 a4 a5 a6 a7 a8 a9 a10 a11 a12] [c1 c2 c3 c4 c5 c6 c7 c8 c9 c10 c11 c12] H.
+  f_equal; apply N.bits_inj; intros sq.
+  - exact (H White Pawn sq).
+  - exact (H White Knight sq).
+  - exact (H White Bishop sq).
+  - exact (H White Rook sq).
+  - exact (H White Queen sq).
+  - exact (H White King sq).
+  - exact (H Black Pawn sq).
+  - exact (H Black Knight sq).
+  - exact (H Black Bishop sq).
+  - exact (H Black Rook sq).
+  - exact (H Black Queen sq).
+  - exact (H Black King sq).
+Qed.
+
+Lemma bool_iff_eq : forall a b : bool, (a = true <-> b = true) -> a = b.
+Proof. intros [|] [|] [H1 H2]; try reflexivity; [symmetry; apply H1 | apply H2]; reflexivity. Qed.
+
+Lemma features_of_rulekey : forall s1 s2, rulekey s1 = rulekey s2 -> features s1 = features s2.
+Proof.
+  intros s1 s2 E. unfold rulekey in E. injection E as Eb Et Ewk Ewq Ebk Ebq Eep.
+  unfold features, castle_features, castle_pairs, ep_features. cbn [flat_map fst snd castle_right].
+  rewrite Eb, Et, Ewk, Ewq, Ebk, Ebq, Eep. reflexivity.
+Qed.
+
+Theorem features_iff_rulekey_gen : forall s1 s2, ep_rank_ok s1 = true -> ep_rank_ok s2 = true ->
+  ((forall f, In f (features s1) <-> In f (features s2)) <-> rulekey s1 = rulekey s2).
+Proof.
+  intros s1 s2 Hr1 Hr2. split.
+  - intros H.
+    assert (Eb : st_board s1 = st_board s2).
+    { apply board_ext. intros c p sq. apply bool_iff_eq. rewrite <- !In_features_piece. apply H. }
+    assert (Et : st_turn s1 = st_turn s2).
+    { apply (In_features_turn s2). apply H. apply In_features_turn. reflexivity. }
+    assert (Ec : forall c ks, castle_right s1 c ks = castle_right s2 c ks).
+    { intros c ks. apply bool_iff_eq. rewrite <- !In_features_castle. apply H. }
+    assert (Eep : ep_capturable s1 = ep_capturable s2).
+    { destruct (ep_capturable s1) as [t1|] eqn:E1; destruct (ep_capturable s2) as [t2|] eqn:E2.
+      - f_equal.
+        assert (Hin : In (FEp (file_of t1)) (features s2)).
+        { apply H. apply In_features_ep. exists t1. split; [reflexivity | exact E1]. }
+        apply In_features_ep in Hin. destruct Hin as [t [Ef Et2]]. rewrite E2 in Et2. injection Et2 as Et2. subst t.
+        apply square_of_rank_file; [|exact Ef].
+        rewrite (ep_capturable_rank s1 t1 Hr1 E1), (ep_capturable_rank s2 t2 Hr2 E2), Et. reflexivity.
+      - exfalso.
+        assert (Hin : In (FEp (file_of t1)) (features s2)).
+        { apply H. apply In_features_ep. exists t1. split; [reflexivity | exact E1]. }
+        apply In_features_ep in Hin. destruct Hin as [t [_ Et2]]. rewrite E2 in Et2. discriminate Et2.
+      - exfalso.
+        assert (Hin : In (FEp (file_of t2)) (features s1)).
+        { apply H. apply In_features_ep. exists t2. split; [reflexivity | exact E2]. }
+        apply In_features_ep in Hin. destruct Hin as [t [_ Et1]]. rewrite E1 in Et1. discriminate Et1.
+      - reflexivity. }
+    unfold rulekey. rewrite Eb, Et, Eep.
+    pose proof (Ec White true) as E1. pose proof (Ec White false) as E2.
+    pose proof (Ec Black true) as E3. pose proof (Ec Black false) as E4.
+    cbn [castle_right] in E1, E2, E3, E4. rewrite E1, E2, E3, E4. reflexivity.
+  - intros E f. rewrite (features_of_rulekey s1 s2 E). reflexivity.
+Qed.
+
+(* ------------------------------------------------------------------ *)
+(* 6. separation                                                       *)
+(* ------------------------------------------------------------------ *)
+
+Lemma feature_eq_dec : forall x y : feature, {x = y} + {x <> y}.
+Proof.
+  assert (Hc : forall a b : color, {a = b} + {a <> b}) by decide equality.
+  assert (Hp : forall a b : piece, {a = b} + {a <> b}) by decide equality.
+  decide equality; try apply N.eq_dec; try apply Bool.bool_dec.
+Qed.
+
+(* in-range features: the ones whose key is an entry of the tables of a hasher built by hasher_of_stream
+   (out-of-range lookups return the default 0) *)
+Definition valid_featureb (f : feature) : bool :=
+  match f with
+  | FPiece sq _ _ => sq <? 64
+  | FEp fl => fl <? 8
+  | _ => true
+  end.
+Definition valid_feature (f : feature) : Prop := valid_featureb f = true.
+
+Lemma two64_is_pow : two64 = 2 ^ 64.
+Proof. reflexivity. Qed.
+
+Lemma wf_slot_lt : forall b c p, WfBoard b -> pocc b c p < 2 ^ 64.
+Proof.
+  intros b c p H. unfold WfBoard, wf_boardb in H. apply andb_true_iff in H. destruct H as [H _].
+  rewrite forallb_forall in H. rewrite <- two64_is_pow.
+  destruct p; [cbn [pocc]; destruct c; reflexivity| | | | | |];
+    apply N.ltb_lt, H; unfold all_slots; destruct c; cbn [pocc In]; tauto.
+Qed.
+
+Lemma features_valid : forall s, WfState s -> Forall valid_feature (features s).
+Proof.
+  intros s H. unfold WfState, wf_stateb in H. rewrite !andb_true_iff in H. destruct H as [[[Hb _] _] _].
+  apply Forall_forall. intros f Hf. unfold valid_feature. destruct f as [sq c p | c | c ks | fl]; cbn [valid_featureb]; try reflexivity.
+  - apply In_features_piece in Hf. apply N.ltb_lt. apply (test_lt64 (pocc (st_board s) c p)); [apply wf_slot_lt; exact Hb | exact Hf].
+  - apply In_features_ep in Hf. destruct Hf as [t [E _]]. apply N.ltb_lt. rewrite E. unfold file_of. lia.
+Qed.
+
+(* "up to 64-bit chance", made exact.  A hasher is xor-independent up to n when no non-empty duplicate-free
+   list of at most n in-range features has keys that xor to 0.  (Without a bound on the length the
+   predicate is unsatisfiable for 64-bit keys: there are 64*14+2+4+8 = 910 in-range features, and any 65
+   vectors of GF(2)^64 are linearly dependent.  Without the restriction to in-range features it is
+   unsatisfiable for every hasher: see unrestricted_independence_unsatisfiable below.) *)
+Definition XorIndependent (n : nat) (h : hasher) : Prop :=
+  forall l : list feature, NoDup l -> l <> [] -> Forall valid_feature l -> (length l <= n)%nat ->
+    fold_right N.lxor 0 (map (key_of h) l) <> 0.
+
+Lemma unrestricted_independence_unsatisfiable : forall h,
+  ~ (forall l : list feature, NoDup l -> l <> [] -> fold_right N.lxor 0 (map (key_of h) l) <> 0).
+Proof.
+  intros h H.
+  apply (H [FPiece (N.of_nat (length (k_piece h))) White PNone]).
+  - constructor; [intros [] | constructor].
+  - discriminate.
+  - cbn [map fold_right key_of]. rewrite N.lxor_0_r. unfold nthN. apply nth_overflow.
+    unfold piece_index. cbn [is_white piece_to_N]. lia.
+Qed.
+
+(* the witness of a collision: the features that occur in exactly one of the two states *)
+Definition feature_diff (s1 s2 : state) : list feature := symdiff feature feature_eq_dec (features s1) (features s2).
+
+Lemma feature_diff_In : forall s1 s2 f,
+  In f (feature_diff s1 s2) <->
+  (In f (features s1) /\ ~ In f (features s2)) \/ (In f (features s2) /\ ~ In f (features s1)).
+Proof. intros s1 s2 f. apply symdiff_In. Qed.
+
+Lemma feature_diff_NoDup : forall s1 s2, NoDup (feature_diff s1 s2).
+Proof. intros s1 s2. apply symdiff_NoDup; apply features_NoDup. Qed.
+
+Lemma feature_diff_length : forall s1 s2,
+  (length (feature_diff s1 s2) <= length (features s1) + length (features s2))%nat.
+Proof. intros s1 s2. apply symdiff_length. Qed.
+
+Lemma feature_diff_valid : forall s1 s2, WfState s1 -> WfState s2 -> Forall valid_feature (feature_diff s1 s2).
+Proof.
+  intros s1 s2 H1 H2. apply Forall_forall. intros f Hf. apply feature_diff_In in Hf.
+  pose proof (features_valid s1 H1) as V1. pose proof (features_valid s2 H2) as V2.
+  rewrite Forall_forall in V1, V2. destruct Hf as [[Hf _] | [Hf _]]; [apply V1 | apply V2]; exact Hf.
+Qed.
+
+Lemma feature_diff_nonempty : forall s1 s2, ep_rank_ok s1 = true -> ep_rank_ok s2 = true ->
+  rulekey s1 <> rulekey s2 -> feature_diff s1 s2 <> [].
+Proof.
+  intros s1 s2 Hr1 Hr2 Hk E. apply Hk. apply (features_iff_rulekey_gen s1 s2 Hr1 Hr2).
+  apply (symdiff_nil feature feature_eq_dec). exact E.
+Qed.
+
+Lemma hash_xor_diff : forall h s1 s2,
+  N.lxor (hash h s1) (hash h s2) = fold_right N.lxor 0 (map (key_of h) (feature_diff s1 s2)).
+Proof.
+  intros h s1 s2. rewrite !feature_form. unfold feature_diff.
+  apply (xfold_symdiff feature feature_eq_dec (key_of h)); apply features_NoDup.
+Qed.
+
+(* a collision between two different rule keys is an xor relation among the keys of the features on
+   which the two states differ *)
+Theorem collision_is_xor_relation : forall h s1 s2, WfState s1 -> WfState s2 ->
+  ep_rank_ok s1 = true -> ep_rank_ok s2 = true ->
+  rulekey s1 <> rulekey s2 -> hash h s1 = hash h s2 ->
+  exists l, NoDup l /\ l <> [] /\ Forall valid_feature l /\
+            (forall f, In f l <-> (In f (features s1) /\ ~ In f (features s2)) \/ (In f (features s2) /\ ~ In f (features s1))) /\
+            (length l <= length (features s1) + length (features s2))%nat /\
+            fold_right N.lxor 0 (map (key_of h) l) = 0.
+Proof.
+  intros h s1 s2 W1 W2 Hr1 Hr2 Hk Hh. exists (feature_diff s1 s2). repeat split.
+  - apply feature_diff_NoDup.
+  - apply feature_diff_nonempty; assumption.
+  - apply feature_diff_valid; assumption.
+  - apply feature_diff_In.
+  - apply feature_diff_In.
+  - apply feature_diff_length.
+  - rewrite <- hash_xor_diff, Hh. apply N.lxor_nilpotent.
+Qed.
+
+Theorem separates : forall n h s1 s2, XorIndependent n h -> WfState s1 -> WfState s2 ->
+  ep_rank_ok s1 = true -> ep_rank_ok s2 = true ->
+  (length (feature_diff s1 s2) <= n)%nat ->
+  rulekey s1 <> rulekey s2 -> hash h s1 <> hash h s2.
+Proof.
+  intros n h s1 s2 HX W1 W2 Hr1 Hr2 Hlen Hk Hh.
+  apply (HX (feature_diff s1 s2)).
+  - apply feature_diff_NoDup.
+  - apply feature_diff_nonempty; assumption.
+  - apply feature_diff_valid; assumption.
+  - exact Hlen.
+  - rewrite <- hash_xor_diff, Hh. apply N.lxor_nilpotent.
+Qed.
+
+(* the same with the bound taken from the two feature lists (each has at most 32+1+4+1 entries in a
+   legal position) *)
+Theorem separates_total : forall h s1 s2,
+  XorIndependent (length (features s1) + length (features s2)) h -> WfState s1 -> WfState s2 ->
+  ep_rank_ok s1 = true -> ep_rank_ok s2 = true ->
+  rulekey s1 <> rulekey s2 -> hash h s1 <> hash h s2.
+Proof.
+  intros h s1 s2 HX W1 W2 Hr1 Hr2. apply (separates _ h s1 s2 HX W1 W2 Hr1 Hr2). apply feature_diff_length.
+Qed.
+
+(* ------------------------------------------------------------------ *)
+(* 7. the moves offered depend on the rule key only                    *)
+(* ------------------------------------------------------------------ *)
+
+(* --- the en-passant flag of the packed moves --- *)
+
+Lemma bit_is_testbit : forall d b, bit d b = N.testbit d b.
+Proof.
+  intros d b. unfold bit. change (N.shiftl 1 b) with (just b). destruct (N.testbit d b) eqn:E.
+  - apply negb_true_iff, N.eqb_neq. intros Z.
+    assert (H : N.testbit (N.land d (just b)) b = true)
+      by (rewrite N.land_spec, just_spec, E, N.eqb_refl; reflexivity).
+    rewrite Z, N.bits_0 in H. discriminate H.
+  - apply negb_false_iff, N.eqb_eq. apply N.bits_inj. intros k.
+    rewrite N.land_spec, just_spec, N.bits_0.
+    destruct (N.eqb_spec b k) as [Ek | Ek]; [subst k; rewrite E; reflexivity | apply andb_false_r].
+Qed.
+
+Lemma ep_store : forall d off mask v,
+  N.testbit mask en_passant_offset = false -> m_is_ep (store d off mask v) = m_is_ep d.
+Proof.
+  intros d off mask v H. unfold m_is_ep. rewrite !bit_is_testbit. unfold store.
+  rewrite N.lor_spec, !N.land_spec, H, andb_false_r, orb_false_r. reflexivity.
+Qed.
+
+Lemma ep_set_bit : forall d b v, b <> en_passant_offset -> m_is_ep (set_bit d b v) = m_is_ep d.
+Proof.
+  intros d b v H. unfold m_is_ep. rewrite !bit_is_testbit. unfold set_bit.
+  assert (Hb : N.testbit (N.shiftl 1 b) en_passant_offset = false).
+  { change (N.shiftl 1 b) with (just b). rewrite just_spec. apply N.eqb_neq. exact H. }
+  destruct v.
+  - rewrite N.lor_spec, Hb, orb_false_r. reflexivity.
+  - rewrite N.ldiff_spec, Hb, andb_true_r. reflexivity.
+Qed.
+
+Lemma ep_zero : m_is_ep 0 = false.
+Proof. reflexivity. Qed.
+
+Ltac ep_frame :=
+  repeat first [ rewrite ep_set_bit by (vm_compute; discriminate)
+               | rewrite ep_store by (vm_compute; reflexivity) ].
+
+Lemma ep_by_moving : forall c p o d, m_is_ep (by_moving c p o d) = false.
+Proof.
+  intros c p o d. unfold by_moving. cbv zeta.
+  destruct (piece_eqb p Pawn && (1 <? abs_dist (rank_of o) (rank_of d))); ep_frame; exact ep_zero.
+Qed.
+
+Lemma ep_by_capturing : forall c p o d k, m_is_ep (by_capturing c p o d k) = false.
+Proof. intros. unfold by_capturing, set_capture. ep_frame. apply ep_by_moving. Qed.
+
+Lemma ep_by_promoting : forall c p o d k, m_is_ep (by_promoting c p o d k) = false.
+Proof. intros. unfold by_promoting, set_promotion. ep_frame. apply ep_by_moving. Qed.
+
+Lemma ep_by_capture_promoting : forall c p o d k q, m_is_ep (by_capture_promoting c p o d k q) = false.
+Proof. intros. unfold by_capture_promoting, set_promotion, set_capture. ep_frame. apply ep_by_moving. Qed.
+
+Lemma ep_by_castling : forall c ks, m_is_ep (by_castling c ks) = false.
+Proof. intros. unfold by_castling. cbv zeta. ep_frame. apply ep_by_moving. Qed.
+
+(* --- an en-passant target that no pawn of the side to move attacks is invisible to MoveGen.pawn_moves --- *)
+
+Lemma any_false : forall b, any b = false -> b = 0.
+Proof. intros b H. unfold any in H. apply negb_false_iff, N.eqb_eq in H. exact H. Qed.
+
+Lemma offset_inverse : forall s df dr t, s < 64 -> offset s df dr = Some t -> offset t (- df) (- dr) = Some s.
+Proof.
+  intros s df dr t Hs H. pose proof (offset_lt _ _ _ _ Hs H) as Ht.
+  apply offset_spec in H; [|exact Hs]. apply offset_spec; [exact Ht|]. lia.
+Qed.
+
+Lemma ep_attack_zero : forall pawns c t fo, pawns < 2 ^ 64 -> (fo = 1 \/ fo = -1)%Z ->
+  any (N.land (pawn_attacks (is_white (opp c)) t) pawns) = false ->
+  N.land (Bits.shift (Bits.shift pawns 0 (forward_dr c)) fo 0) (just t) = 0.
+Proof.
+  intros pawns c t fo Hp Hfo Hany. apply any_false in Hany.
+  apply N.bits_inj. intros k. rewrite N.land_spec, just_spec, N.bits_0.
+  destruct (N.eqb_spec t k) as [Ek | Ek]; [subst k | apply andb_false_r].
+  rewrite andb_true_r.
+  destruct (N.testbit (Bits.shift (Bits.shift pawns 0 (forward_dr c)) fo 0) t) eqn:E; [exfalso | reflexivity].
+  assert (Hfwd : (-2 <= forward_dr c <= 2)%Z) by (destruct c; cbn [forward_dr]; lia).
+  pose proof (C09.C09_shift_lt pawns 0 (forward_dr c) Hp) as HA.
+  pose proof (C09.C09_shift_lt _ fo 0 HA) as HB.
+  assert (Ht : t < 64) by (apply (test_lt64 _ t HB); exact E).
+  apply (C09.C09_shift _ fo 0 t HA) in E; [| lia | lia | exact Ht].
+  destruct E as [s1 [Hs1 [T1 O1]]].
+  apply (C09.C09_shift pawns 0 (forward_dr c) s1 Hp) in T1; [| lia | exact Hfwd | exact Hs1].
+  destruct T1 as [s0 [Hs0 [T0 O0]]].
+  pose proof (offset_join s0 fo (forward_dr c) s1 t Hs0 O0 O1) as OJ.
+  apply offset_inverse in OJ; [|exact Hs0].
+  assert (HT : test (pawn_attacks (is_white (opp c)) t) s0 = true).
+  { destruct (C09.C09_leapers t s0 Ht Hs0) as [_ [_ [HW HBk]]].
+    destruct c; cbn [opp is_white forward_dr] in *.
+    - apply HBk. exists (- fo, -1)%Z. split; [|exact OJ].
+      unfold black_pawn_offsets. destruct Hfo as [-> | ->]; cbn; tauto.
+    - apply HW. exists (- fo, 1)%Z. split; [|exact OJ].
+      unfold white_pawn_offsets. destruct Hfo as [-> | ->]; cbn; tauto. }
+  assert (HL : N.testbit (N.land (pawn_attacks (is_white (opp c)) t) pawns) s0 = true).
+  { rewrite N.land_spec. unfold test in HT, T0. rewrite HT, T0. reflexivity. }
+  rewrite Hany, N.bits_0 in HL. discriminate HL.
+Qed.
+
+(* --- MoveGen.pawn_moves reads the en-passant target only through the two intersections --- *)
+
+Definition ep_mask (ep : option N) : N := match ep with Some t => just t | None => 0 end.
+
+Lemma pawn_moves_ep : forall b t wk wq bk bq ep ep' h f h' f',
+  (forall fo, (fo = 1 \/ fo = -1)%Z ->
+     N.land (Bits.shift (Bits.shift (pocc b t Pawn) 0 (forward_dr t)) fo 0) (ep_mask ep)
+     = N.land (Bits.shift (Bits.shift (pocc b t Pawn) 0 (forward_dr t)) fo 0) (ep_mask ep')) ->
+  MoveGen.pawn_moves (mkState b t wk wq bk bq ep h f) = MoveGen.pawn_moves (mkState b t wk wq bk bq ep' h' f').
+Proof.
+  intros b t wk wq bk bq ep ep' h f h' f' H.
+  unfold MoveGen.pawn_moves. cbn [st_board st_turn st_ep]. fold (ep_mask ep). fold (ep_mask ep').
+  rewrite (H 1%Z) by (left; reflexivity). rewrite (H (-1)%Z) by (right; reflexivity). reflexivity.
+Qed.
+
+(* --- without an en-passant target no generated move carries the en-passant flag --- *)
+
+Lemma expand_moves_no_ep : forall s o dests p m, In m (MoveGen.expand_moves s o dests p) -> m_is_ep m = false.
+Proof.
+  intros s o dests p m H. unfold MoveGen.expand_moves in H. apply in_map_iff in H. destruct H as [t [E _]]. subst m.
+  destruct (piece_at (st_board s) t) as [[c k]|]; [apply ep_by_capturing | apply ep_by_moving].
+Qed.
+
+Lemma pawn_moves_no_ep : forall s m, st_ep s = None -> In m (MoveGen.pawn_moves s) -> m_is_ep m = false.
+Proof.
+  intros s m Hep H. unfold MoveGen.pawn_moves in H. rewrite Hep in H. rewrite !N.land_0_r in H.
+  cbn [first_one] in H. rewrite !app_nil_r in H.
+  repeat (rewrite in_app_iff in H).
+  repeat match type of H with
+  | _ \/ _ => destruct H as [H | H]
+  end;
+  repeat match type of H with
+  | In _ (map _ _) => apply in_map_iff in H; destruct H as [? [H _]]; subst m
+  | In _ (flat_map _ _) => apply in_flat_map in H; destruct H as [? [_ H]]
+  end;
+  first [apply ep_by_moving | apply ep_by_promoting | apply ep_by_capturing | apply ep_by_capture_promoting].
+Qed.
+
+Lemma pseudo_legal_no_ep : forall s m, st_ep s = None -> In m (MoveGen.pseudo_legal s) -> m_is_ep m = false.
+Proof.
+  intros s m Hep H. unfold MoveGen.pseudo_legal in H. rewrite !in_app_iff in H.
+  destruct H as [H | [H | [H | [H | [H | H]]]]].
+  - apply (pawn_moves_no_ep s m Hep H).
+  - unfold MoveGen.knight_moves in H. apply in_flat_map in H. destruct H as [o [_ H]]. apply (expand_moves_no_ep _ _ _ _ _ H).
+  - unfold MoveGen.king_moves in H. apply in_app_iff in H. destruct H as [H | H].
+    + apply in_flat_map in H. destruct H as [o [_ H]]. apply (expand_moves_no_ep _ _ _ _ _ H).
+    + apply in_flat_map in H. destruct H as [ks [_ H]].
+      destruct (castle_right s (st_turn s) ks); [|destruct H].
+      destruct (_ && _); [|destruct H]. destruct H as [H | []]. subst m. apply ep_by_castling.
+  - unfold MoveGen.slider_moves in H. apply in_flat_map in H. destruct H as [o [_ H]]. apply (expand_moves_no_ep _ _ _ _ _ H).
+  - unfold MoveGen.slider_moves in H. apply in_flat_map in H. destruct H as [o [_ H]]. apply (expand_moves_no_ep _ _ _ _ _ H).
+  - unfold MoveGen.slider_moves in H. apply in_flat_map in H. destruct H as [o [_ H]]. apply (expand_moves_no_ep _ _ _ _ _ H).
+Qed.
+
+(* --- making a move: the successor's placement and side depend on the en-passant target only for
+       moves that carry the en-passant flag, and never on the counters --- *)
+
+Lemma try_as_legal_core : forall b t wk wq bk bq ep ep' h f h' f' m,
+  m_is_ep m = false \/ ep = ep' ->
+  option_map fst (MoveGen.try_as_legal (mkState b t wk wq bk bq ep h f) m)
+  = option_map fst (MoveGen.try_as_legal (mkState b t wk wq bk bq ep' h' f') m).
+Proof.
+  intros b t wk wq bk bq ep ep' h f h' f' m H.
+  unfold MoveGen.try_as_legal, MoveGen.apply_move.
+  cbn [st_board st_turn st_ep st_wk st_wq st_bk st_bq st_half st_full].
+  destruct H as [H | H].
+  - rewrite H. destruct (m_capture m) as [cap|];
+      cbn [st_board st_turn]; match goal with |- context [none ?x] => destruct (none x) end; reflexivity.
+  - subst ep'. destruct (m_is_ep m).
+    + destruct ep as [u|]; [|reflexivity].
+      destruct (offset u 0 (backward_dr t)) as [cs|]; [|reflexivity].
+      cbn [st_board st_turn]; match goal with |- context [none ?x] => destruct (none x) end; reflexivity.
+    + destruct (m_capture m) as [cap|];
+      cbn [st_board st_turn]; match goal with |- context [none ?x] => destruct (none x) end; reflexivity.
+Qed.
+
+Lemma filter_map_fst_ext : forall (A B C : Type) (f g : A -> option (B * C)) (l : list A),
+  (forall x, In x l -> option_map fst (f x) = option_map fst (g x)) ->
+  map fst (MoveGen.filter_map f l) = map fst (MoveGen.filter_map g l).
+Proof.
+  intros A B C f g. induction l as [|x l IH]; intros H; cbn [MoveGen.filter_map]; [reflexivity|].
+  pose proof (H x (or_introl eq_refl)) as Hx.
+  assert (IH' : map fst (MoveGen.filter_map f l) = map fst (MoveGen.filter_map g l)) by (apply IH; intros y Hy; apply H; right; exact Hy).
+  destruct (f x) as [[b1 c1]|], (g x) as [[b2 c2]|]; cbn [option_map fst] in Hx; try discriminate Hx.
+  - injection Hx as Hx. cbn [map fst]. rewrite Hx, IH'. reflexivity.
+  - exact IH'.
+Qed.
+
+(* the state with the rule-irrelevant parts erased: uncapturable target dropped, counters zeroed *)
+Definition norm_state (s : state) : state :=
+  mkState (st_board s) (st_turn s) (st_wk s) (st_wq s) (st_bk s) (st_bq s) (ep_capturable s) 0 0.
+
+Lemma norm_state_of_rulekey : forall s1 s2, rulekey s1 = rulekey s2 -> norm_state s1 = norm_state s2.
+Proof.
+  intros s1 s2 E. unfold rulekey in E. injection E as Eb Et Ewk Ewq Ebk Ebq Eep.
+  unfold norm_state. rewrite Eb, Et, Ewk, Ewq, Ebk, Ebq, Eep. reflexivity.
+Qed.
+
+Lemma ep_capturable_cases : forall s, ep_capturable s = st_ep s \/
+  (ep_capturable s = None /\ exists u, st_ep s = Some u /\
+     any (N.land (pawn_attacks (is_white (opp (st_turn s))) u) (pocc (st_board s) (st_turn s) Pawn)) = false).
+Proof.
+  intros s. unfold ep_capturable. destruct (st_ep s) as [u|]; [|left; reflexivity].
+  destruct (any _) eqn:E; [left; reflexivity | right]. split; [reflexivity|]. exists u. split; [reflexivity | exact E].
+Qed.
+
+Lemma pseudo_legal_norm : forall s, pocc (st_board s) (st_turn s) Pawn < 2 ^ 64 ->
+  MoveGen.pseudo_legal s = MoveGen.pseudo_legal (norm_state s).
+Proof.
+  intros s Hp.
+  assert (HP : MoveGen.pawn_moves s = MoveGen.pawn_moves (norm_state s)).
+  { destruct s as [b t wk wq bk bq ep h f]. unfold norm_state.
+    cbn [st_board st_turn st_wk st_wq st_bk st_bq] in *. apply pawn_moves_ep. intros fo Hfo.
+    destruct (ep_capturable_cases (mkState b t wk wq bk bq ep h f)) as [E | [E [u [Eu Ha]]]].
+    - rewrite E. reflexivity.
+    - rewrite E. cbn [st_ep st_board st_turn] in Eu, Ha. rewrite Eu. cbn [ep_mask].
+      rewrite N.land_0_r. apply ep_attack_zero; assumption. }
+  unfold MoveGen.pseudo_legal. rewrite HP. reflexivity.
+Qed.
+
+Lemma legal_moves_norm : forall s, pocc (st_board s) (st_turn s) Pawn < 2 ^ 64 ->
+  map fst (MoveGen.gen_legal s) = map fst (MoveGen.gen_legal (norm_state s)).
+Proof.
+  intros s Hp. unfold MoveGen.gen_legal. rewrite <- (pseudo_legal_norm s Hp).
+  apply filter_map_fst_ext. intros m Hm.
+  destruct s as [b t wk wq bk bq ep h f]. unfold norm_state.
+  cbn [st_board st_turn st_wk st_wq st_bk st_bq]. apply try_as_legal_core.
+  destruct (ep_capturable_cases (mkState b t wk wq bk bq ep h f)) as [E | [E _]].
+  - right. symmetry. exact E.
+  - left. rewrite (pseudo_legal_norm _ Hp) in Hm. apply (pseudo_legal_no_ep _ m) in Hm; [exact Hm|].
+    unfold norm_state. cbn [st_ep]. exact E.
+Qed.
+
+Theorem same_key_same_moves : forall s1 s2, WfState s1 -> WfState s2 ->
+  rulekey s1 = rulekey s2 -> map fst (MoveGen.gen_legal s1) = map fst (MoveGen.gen_legal s2).
+Proof.
+  intros s1 s2 W1 W2 E.
+  assert (B : forall s, WfState s -> pocc (st_board s) (st_turn s) Pawn < 2 ^ 64).
+  { intros s W. unfold WfState, wf_stateb in W. rewrite !andb_true_iff in W. destruct W as [[[Wb _] _] _].
+    apply wf_slot_lt. exact Wb. }
+  rewrite (legal_moves_norm s1 (B s1 W1)), (legal_moves_norm s2 (B s2 W2)), (norm_state_of_rulekey s1 s2 E).
+  reflexivity.
 Qed.
